@@ -1,6 +1,7 @@
 (* Props/C12.v - Results stream lazily with back-pressure and without starving other clients. *)
 From Coq Require Import List Arith NArith Lia Bool.
 From MM Require Import Lib.Bytes Model.Conn Model.Resp Proofs.C10Proofs Proofs.StreamProofs Proofs.C03Proofs Proofs.LazyProofs Gen.FactsConn Gen.FactsStream Gen.FactsRoute Gen.FactsVars.
+From MM Require Import Gen.FactsOutline.
 Import ListNotations.
 Open Scope N_scope.
 
@@ -18,6 +19,12 @@ Theorem c12_source_shape :
   session_session_set_var_middleware_ok = true /\ session_session_replace_variables_middleware_ok = true /\
   session_session_info_schema_middleware_ok = true /\ connection_connection_query_ok = true.
 Proof. repeat split; reflexivity. Qed.
+
+(* the modules this property rests on define the functions, classes, methods and class-level names they defined when the
+   model was transcribed - nothing added (an override, a new helper in the path), removed or renamed *)
+Theorem c12_module_outlines : translated_outline = true /\ outline_connection_ok = true /\ outline_stream_ok = true /\ outline_results_ok = true /\ outline_utils_ok = true.
+Proof. repeat split; reflexivity. Qed.
+
 
 (* back-pressure, buffer part: after ANY write the library holds less than B bytes, or nothing *)
 Theorem c12_buffer_bounded : forall s p sz d,
